@@ -168,6 +168,8 @@ func vxForType(t string) string {
 		return "vxU8()"
 	case "bool":
 		return "vxBool()"
+	case "float64":
+		return "vxF64()"
 	case "string":
 		return "vxConcretizeLen(vxStr(3))"
 	case "[]int":
@@ -219,6 +221,8 @@ func emitDriver(it *SItem, v *SVar) string {
 		for i, r := range it.Ret {
 			if r == "string" {
 				sb.WriteString(fmt.Sprintf("\t\tsame = vxAnd(same, vxStrEq(r1_%d, r2_%d))\n", i, i))
+			} else if r == "float64" {
+				sb.WriteString(fmt.Sprintf("\t\tsame = vxAnd(same, vxSameF64(r1_%d, r2_%d))\n", i, i))
 			} else {
 				sb.WriteString(fmt.Sprintf("\t\tsame = vxAnd(same, r1_%d == r2_%d)\n", i, i))
 			}
